@@ -1,5 +1,5 @@
 (* C05 -- distance() is the exact squared Euclidean transform in any dimension. *)
-Require Import MV.Base.Prelude MV.Base.CInt MV.Base.Index MV.Model.Distance MV.Proof.DistanceProof.
+Require Import MV.Base.Prelude MV.Base.CInt MV.Base.Index MV.Model.Distance MV.Proof.DistanceProof MV.Proof.EnvelopeProof MV.Proof.DistanceExact.
 
 (* one pass per axis over an n-D array, each pass computing the 1-D min-plus convolution with x^2, yields at every
    pixel the minimum over the WHOLE grid of (squared Euclidean distance + initial value): any dimension, any shape
@@ -28,9 +28,23 @@ Theorem C05_infinity_is_adequate : forall sh f0 p r, pos_shape sh -> in_shape sh
      forall a b, in_shape sh a -> in_shape sh b -> sqdist a b < r).
 Proof. exact edt_with_sentinel. Qed.
 
-(* the lower-envelope pass of _distance.cpp against the 1-D min-plus specification.
-   [fin]: every line of length <= 6 over the values {0, 1, 4, 73}; for all other lines the two executable
-   definitions are compared by the correspondence check on every line it generates *)
-Theorem C05_lower_envelope_small_lines : forall f, (length f <= 6)%nat -> (forall x, In x f -> In x [0; 1; 4; 73]) ->
-  dt1d f = minplus1d f.
-Proof. exact envelope_small_lines. Qed.
+(* the lower-envelope pass of _distance.cpp (parabola stack with exact rational intersections, then the forward sweep) computes
+   for EVERY line and every position the minimum over p of (q-p)^2 + f[p]; it therefore equals the executable 1-D
+   specification on all inputs *)
+Theorem C05_lower_envelope_is_exact : forall f q, 0 <= q < Zlen f ->
+  is_min (fun v => exists p, 0 <= p < Zlen f /\ v = (q - p) * (q - p) + nthZ 0 f p) (nthZ 0 (dt1d f) q).
+Proof. exact dt1d_spec. Qed.
+Theorem C05_lower_envelope_is_minplus : forall f, dt1d f = minplus1d f.
+Proof. exact dt1d_is_minplus1d. Qed.
+
+(* hence distance() -- the model of distance.py + _distance.dt -- is the exact squared Euclidean distance transform for every
+   well-formed array of any dimension: 0 on the background, the least squared distance to a background pixel elsewhere, and a
+   value above every attainable squared distance when there is no background *)
+Theorem C05_distance_is_the_exact_transform : forall a, wf_arr a -> forall p, in_shape (shape a) p ->
+  let r := nthZ 0 (distance a) (ravel (shape a) p) in
+  (aget a p = 0 -> r = 0) /\
+  ((exists q0, in_shape (shape a) q0 /\ aget a q0 = 0) ->
+     is_min (fun v => exists q, in_shape (shape a) q /\ aget a q = 0 /\ v = sqdist p q) r) /\
+  ((forall q, in_shape (shape a) q -> aget a q <> 0) ->
+     forall u v, in_shape (shape a) u -> in_shape (shape a) v -> sqdist u v < r).
+Proof. exact distance_exact. Qed.
